@@ -282,6 +282,10 @@ func streamSchedErr(o *Out, rng *rand.Rand, thorough bool, _ []string) {
 		st := fs[rng.Intn(len(fs))]
 		lines = append(lines, fmt.Sprintf("sched-err %s - 0 1 %d %s | %s", readerNames[rng.Intn(len(readerNames))], 1+rng.Int63n(1<<30), hx(st), inflateTable(st)))
 	}
+	// errors reported concurrently by several goroutines are all retained
+	for i := 0; i < 4; i++ {
+		lines = append(lines, fmt.Sprintf("catcher %d %d", 4+rng.Intn(12), 500+rng.Intn(3000)))
+	}
 	sort.SliceStable(lines, func(i, j int) bool { return false })
 	runIsolated(o, lines, 30*time.Second)
 }
